@@ -16,16 +16,22 @@ THEOREMS = [
     (NS + "C07_fragment_callback", "full"),
     (NS + "C07_at_most_once", "full"),
     (NS + "C07_fresh_callback_at_most_once", "full"),
+    (NS + "C07_conservation", "full"),
+    (NS + "C07_exactly_once", "full"),
+    (NS + "C07_held_until_invoked", "full"),
     (NS + "C07_roles_hold_no_user_callbacks", "full"),
 ]
 ASSUMPTIONS = [
     "per-step statements for every state (one resolution = one entry removed, one counter, one event; False only from a time-out test, "
     "True only for datagrams the peer's header names; named => accepted by the peer; RetrySender/FragmentSender report once)",
-    "history level, AT MOST ONCE is a Lean theorem (C07_at_most_once): for every history of sends, builds, arrivals of any bytes, time-out "
-    "sweeps, disconnects and inbox drains in which the callback is never given to a BEST_EFFORT send, its invocations are bounded by the "
-    "number of operations that were given it (potential argument over the four places a callback is held, Lemmas/Once7.lean); AT LEAST "
-    "ONCE (every send is resolved: acked, or timed out by the next sweep after the deadline) is C07_timeout_resolves_all_due per sweep + "
-    "the C05 Alive invariant for guaranteed sends, and as a count over a history it is checked by the monitor on every run (partial)",
+    "history level, AT MOST ONCE (C07_at_most_once): for every history of sends, builds, arrivals of any bytes, time-out sweeps, disconnects "
+    "and inbox drains in which the callback is never given to a BEST_EFFORT send, its invocations are bounded by the number of operations "
+    "that were given it (potential argument over the four places a callback is held, Lemmas/Once7.lean)",
+    "history level, EXACTLY ONCE (C07_conservation, C07_exactly_once, C07_held_until_invoked): with the typed-queue invariant (proved), "
+    "fresh datagram numbers at each build (FreshRun: false only with 65535 unresolved datagrams) and no disconnect, holders + invocations "
+    "are conserved: a callback given to one accepted unretried/guaranteed send is held by the connection until it is invoked and has been "
+    "invoked exactly once when the connection holds it no longer; that every holder is eventually released (the datagram is acked or the "
+    "next sweep after the deadline times it out) is C07_timeout_resolves_all_due per sweep and, over a run, the monitor's job",
     "InSync: the peer's newest datagram is within half a ring of the acknowledged one (implied by the connection time-outs)",
     "user callbacks do not re-enter the connection; BEST_EFFORT sends are outside the exactly-once statement (as in the property)",
     "'accepted the whole message' is read at endpoint level (every datagram carrying a part was accepted); a fragmented send can report "
